@@ -1003,4 +1003,60 @@ theorem reopen_good (s : SState) (h : Good s) (seg' : Nat) : Good (Sparse.openDB
     have := hmarked p hp
     simpa using this
 
+/-! ### the latest record of the whole log -/
+
+/-- the last record of the log (files in id order, records in write order) that satisfies `q` -/
+def lastInLog (fs : List File) (q : Rec → Bool) : Option Rec :=
+  ((allRecs fs).filter fun x => q x.1).getLast?.map (·.1)
+
+theorem getLast?_append_some {α} (a b : List α) : (a ++ b).getLast? = match b.getLast? with
+    | some x => some x
+    | none => a.getLast? := by
+  cases hb : b.getLast? with
+  | none =>
+    have : b = [] := by simpa using hb
+    subst this; simp
+  | some x =>
+    obtain ⟨ys, hys⟩ := List.getLast?_eq_some_iff.mp hb
+    rw [hys, ← List.append_assoc]
+    simp
+
+theorem latestIn_eq (f : File) (nk : Bytes) :
+    (latestIn f.recs nk).map (·.2) =
+      (((f.recs.map fun p => (p.2, f.fid, p.1)).filter fun x => x.1.ds == dsKV && newKey x.1 == nk).getLast?.map (·.1)) := by
+  unfold latestIn isKey
+  rw [List.filter_map]
+  simp only [List.getLast?_map, Option.map_map]
+  rfl
+
+/-- newest file first, last record in it = last record of the log -/
+theorem latestFile_rev (rs : List File) (nk : Bytes) :
+    latestFile rs nk = lastInLog rs.reverse (fun r => r.ds == dsKV && newKey r == nk) := by
+  induction rs with
+  | nil => rfl
+  | cons f older ih =>
+    simp only [List.reverse_cons, latestFile]
+    unfold lastInLog at ih ⊢
+    have hall : allRecs (older.reverse ++ [f]) = allRecs older.reverse ++ (f.recs.map fun p => (p.2, f.fid, p.1)) := by
+      simp [allRecs]
+    rw [hall, List.filter_append, getLast?_append_some]
+    have hl := latestIn_eq f nk
+    cases hli : latestIn f.recs nk with
+    | some p =>
+      rw [hli] at hl
+      simp only [Option.map_some] at hl
+      cases hg : ((f.recs.map fun p => (p.2, f.fid, p.1)).filter fun x => x.1.ds == dsKV && newKey x.1 == nk).getLast? with
+      | none => rw [hg] at hl; simp at hl
+      | some y => rw [hg] at hl; simp only [Option.map_some, Option.some.injEq] at hl; simp [hl]
+    | none =>
+      rw [hli] at hl
+      simp only [Option.map_none] at hl
+      cases hg : ((f.recs.map fun p => (p.2, f.fid, p.1)).filter fun x => x.1.ds == dsKV && newKey x.1 == nk).getLast? with
+      | some y => rw [hg] at hl; simp at hl
+      | none => simp only; exact ih
+
+theorem latestFile_eq (fs : List File) (nk : Bytes) :
+    latestFile fs.reverse nk = lastInLog fs (fun r => r.ds == dsKV && newKey r == nk) := by
+  rw [latestFile_rev, List.reverse_reverse]
+
 end NutsProofs.SparseGet
